@@ -127,6 +127,8 @@ class TermEval:
             if leafname in ("list",):
                 return list(args[0])
             if leafname == "round":
+                if len(args) > 1:
+                    return round(args[0], int(args[1]))
                 return float(round(args[0]))
             if leafname == "floor":
                 return float(math.floor(args[0]))
@@ -359,6 +361,9 @@ def outcome(p, te=None):
             return ("return", te.ev(t))
         except Unknown:
             pass
+        except (ZeroDivisionError, OverflowError) as e:
+            # the returned expression itself cannot be computed on this representative: the code raises here
+            return ("raise", type(e).__name__)
     return ("return", show(t))
 
 
